@@ -149,10 +149,22 @@ def sign_rule(chk, repo, rid):
 
 def bond_coverage(chk, repo, rid, fi, branch_stmts, mode, obj='self', cases=None):
     """orthonormalize / compress: the loop plus the boundary call re-factorise every bond exactly once, in order"""
+    gen, small = 2, [1]
+    for attempt in range(4):
+        try:
+            return _bond_coverage(chk, repo, rid, fi, branch_stmts, mode, obj, gen, small)
+        except sw.EmptinessUndecided:
+            small = small + [gen]
+            gen += 1
+    raise AnalysisError(f'{fi.qual} ({mode}): emptiness of the sweep loop is undecidable even for L >= {gen}')
+
+
+def _bond_coverage(chk, repo, rid, fi, branch_stmts, mode, obj, gen, small):
     out = []
-    for fixed in (None, 1):
+    pending = []
+    for fixed in [None] + list(small):
         rep = sw.Report()
-        kw = dict(min_sites=2) if fixed is None else dict(fixed_sites=1)
+        kw = dict(min_sites=gen) if fixed is None else dict(fixed_sites=fixed)
         m = sw.SweepMachine(repo, fi, rep, psi=obj, **kw)
         st = sw.State(Affine.const(-1), m.Lv, ZERO, m.Lv - ONE)
         # prefix of the branch: everything up to and including the boundary call with the dummy tensor
@@ -180,7 +192,7 @@ def bond_coverage(chk, repo, rid, fi, branch_stmts, mode, obj='self', cases=None
             else:
                 body.append(s)
         m.final = m.run(body, st)
-        label = 'L >= 2' if fixed is None else 'L = 1'
+        label = f'L >= {gen}' if fixed is None else f'L = {fixed}'
         out.append((label, m, rep, pre))
         # coverage
         evs = []
@@ -215,8 +227,10 @@ def bond_coverage(chk, repo, rid, fi, branch_stmts, mode, obj='self', cases=None
             all(h[0] == g[1] + ONE for g, h in zip(cov_sorted, cov_sorted[1:]))
         # boundary call must come last (after the loop)
         last_is_boundary = bool(evs) and evs[-1][0] == 'single' and evs[-1][1].dummy
-        chk.ob(rid, where(repo, fi, branch_stmts[0]), f'{fi.name}(mode={mode!r}) [{label}]: the sweep re-factorises every bond '
-               f'of [{lo}, {hi}] exactly once, in {"ascending" if mode == "left" else "descending"} order, the boundary '
-               f'bond last', ok and order_ok and last_is_boundary,
-               f'bonds covered: {[(str(a), str(b)) for a, b in cov_sorted]}', key=f'{rid}|{fi.qual}|{mode}|{label}|coverage')
+        pending.append((where(repo, fi, branch_stmts[0]), f'{fi.name}(mode={mode!r}) [{label}]: the sweep re-factorises every bond '
+                        f'of [{lo}, {hi}] exactly once, in {"ascending" if mode == "left" else "descending"} order, the boundary '
+                        f'bond last', ok and order_ok and last_is_boundary,
+                        f'bonds covered: {[(str(a), str(b)) for a, b in cov_sorted]}', f'{rid}|{fi.qual}|{mode}|{label}|coverage'))
+    for w_, inst, ok_, det, key_ in pending:
+        chk.ob(rid, w_, inst, ok_, det, key=key_)
     return out
